@@ -41,8 +41,9 @@
   `normal(v_host, vrms·0.577·f_sigv)`.  What does apply, and is modelled (`mkNfw`, `genSatsNfw`,
   `genGalCatNfw`, with the drawn counts / positions / velocities as INPUTS): centrals are unchanged
   (`gen_cent`), every NFW satellite carries its host's id and mass (`np.repeat` of the host columns by the
-  counts, host order), centrals precede satellites, `Ncent`; RSD as coded there:
-  `z = (z + vz * inv_velz2kms) % lbox`, i.e. into `[0, L)`, not the `[-L/2, L/2)` of `wrap` (and no light cone).
+  counts, host order), centrals precede satellites, `Ncent`; RSD as coded there (after the repair of the
+  `[0, L)` range): `half = lbox/2; z = (z + vz * inv_velz2kms + half) % lbox - half`, any number of periods,
+  into `[-L/2, L/2)`; no light-cone branch.
 
   The widths (mean occupation × ic × multiplicity | particle weight × rank decorator, including the
   assembly-bias shifts and, for satellites, the three conformity variants of the ELG width) are
@@ -267,11 +268,13 @@ structure Draw where
   vel : V3
   deriving Repr
 
-/-- `gen_sats_nfw`: id and mass are `np.repeat`-ed from the host row; RSD is `(z + vz*inv) % lbox`
-whenever `rsd` (no light-cone branch there) -/
+/-- `gen_sats_nfw`: id and mass are `np.repeat`-ed from the host row; RSD is
+`half = lbox / 2; z = (z + vz*inv + half) % lbox - half` whenever `rsd` (no light-cone branch there) -/
 def mkNfw (cfg : Cfg) (h : Host) (d : Draw) : Gal :=
   { id := h.id, mass := h.mass, vel := d.vel,
-    pos := if cfg.rsd then ⟨d.pos.x, d.pos.y, pyMod (d.pos.z + d.vel.z * cfg.inv) cfg.lbox⟩ else d.pos }
+    pos := if cfg.rsd then
+        ⟨d.pos.x, d.pos.y, pyMod (d.pos.z + d.vel.z * cfg.inv + cfg.lbox / 2) cfg.lbox - cfg.lbox / 2⟩
+      else d.pos }
 
 /-- the satellites of one tracer: host rows in order, each with its drawn satellites -/
 def genSatsNfw (cfg : Cfg) (rows : List (Host × List Draw)) : List Gal :=
